@@ -20,6 +20,13 @@ def handle (ts : List String) : String :=
       let p : TRParams Float := { eta1 := eta1, eta2 := eta2, gammaDec := gdec, gammaInc := ginc, gammaIncOverline := gincbar, alpha1 := 0, alpha2 := 0 }
       showFloat (trUpdate floatRadOps p ratio dnorm tau delta rho)
     | _ => "bad-op"
+  | "ratio" :: np :: rest =>
+    match np.toNat?, parseFloats rest with
+    | some nproj, some [pred, actual] =>
+      let r := calcRatio floatRadOps pred actual nproj
+      showFloat r.1 ++ " " ++ (match r.2 with | none => "-" | some f => toString f) ++ " " ++
+        (if mayReplaceKopt floatRadOps r.1 then "1" else "0")
+    | _, _ => "bad-op"
   | "geomd" :: rest =>
     match parseFloats rest with
     | some [delta, rho, dist] => showFloat (geomDelta floatRadOps delta rho dist)
